@@ -31,14 +31,18 @@ def main(fams):
             errs_by_mod.setdefault(prepare.module_of_file(e['file']), []).append(e['msg'][:160])
         ok = [c for c in cands if c['module'] not in failed]
         bad = [c for c in cands if c['module'] in failed]
-        path = os.path.join(common.VERIF, 'obligations', fam + '.json')
+        prop = gen_props.FAMILY_PROPERTY[fam]
+        path = os.path.join(common.VERIF, 'obligations', prop + '.json')
         try:
             obl = json.load(open(path))
         except (OSError, ValueError):
-            obl = {'property': fam, 'theorems': []}
-        hand = [t for t in obl.get('theorems', []) if not t.get('generated')]
-        obl['theorems'] = hand + [{'name': c['name'], 'module': c['module'], 'covers': c['covers'], 'generated': True} for c in ok]
-        obl['uncovered_generated'] = sorted(c['covers'] for c in bad)
+            obl = {'property': prop, 'theorems': []}
+        keepers = [t for t in obl.get('theorems', []) if not (t.get('generated') and t.get('family', fam) == fam)]
+        obl['theorems'] = keepers + [{'name': c['name'], 'module': c['module'], 'covers': c['covers'], 'generated': True, 'family': fam} for c in ok]
+        obl.setdefault('uncovered_generated', {})
+        if not isinstance(obl['uncovered_generated'], dict):
+            obl['uncovered_generated'] = {}
+        obl['uncovered_generated'][fam] = sorted(c['covers'] for c in bad)
         common.write_json(path, obl)
         print('%s: %d candidates, %d proved, %d failed (%.0fs)' % (fam, len(cands), len(ok), len(bad), secs))
         reasons = {}
